@@ -93,3 +93,18 @@ package ice
 //@   props C07
 //@   site call Read#1 assert reads-the-agents-buffer-into-the-callers-slice: arg0 == c.agent.buf && arg1 == p
 //@   site call Add#1 assert counts-exactly-the-returned-bytes: arg1 == n
+
+// The second write path: a packet addressed to a pair by id leaves only over a
+// validated (Succeeded) pair that is currently indexed under that id, and STUN is refused.
+//@ func (*Conn).WriteToPair
+//@   props C07
+//@   requires c != nil && c.agent != nil
+//@   site call Write#1 assert refuses-stun-payloads: !isStunMsg(elems(packet), packet.off, len(packet))
+//@   site call Write#1 assert only-over-the-validated-pair-with-that-id: arg0 == pair && pair != nil && arg1 == packet && lookupErr == nil && pair.state == CandidatePairStateSucceeded
+//@   site call UpdatePacketSent#1 assert pair-counter-counts-accepted-bytes: arg0 == pair && arg1 == n && n > 0
+//@   ensures stun-refused: isStunMsg(elems(packet), packet.off, len(packet)) ==> result0 == 0 && result1 != nil
+
+//@ func (*Conn).WriteToPair$1
+//@   props C07
+//@   ensures unknown-id-is-an-error: pair == nil ==> lookupErr != nil
+//@   ensures only-a-succeeded-pair-passes: lookupErr == nil ==> pair != nil && pair.state == CandidatePairStateSucceeded && pair == c.agent.pairsByID[pairID]
